@@ -348,10 +348,10 @@ def _last_complete(sim, exc):
 @register
 class C04(Spec):
     id = "C04"
-    tiers = {"quick": dict(runs=900, builds=("py",), wall=80), "thorough": dict(runs=30000, builds=("py", "cy"), wall=1500)}
+    tiers = {"quick": dict(runs=1100, builds=("py",), wall=80), "thorough": dict(runs=30000, builds=("py", "cy"), wall=1500)}
     rule = (
         "seeded strategy assembled from every stock scheduling / selection / statistic / weighting / rebalancing algo (nested trees, bid/offer, signal / target-weight / stat frames) is run by the real Backtest; "
-        "fault future_corruption: for 2 seeded cut dates every supplied value dated after the cut is scaled / re-drawn / set NaN / zero (index unchanged) and the run repeated; all node histories and transactions up to the cut must be byte-identical; "
+        "fault future_corruption: for 4 seeded cut dates every supplied value dated after the cut is scaled / re-drawn / set NaN / zero (index unchanged) and the run repeated; all node histories and transactions up to the cut must be byte-identical; "
         "evaluations = twin pairs; distinct = distinct (plan, cut) digests; non-trivial = the base run holds a position at or before the cut"
     )
     assumptions = [
@@ -363,7 +363,7 @@ class C04(Spec):
     def gen(self, r, tier, i):
         plan = drive_engine.gen_all_algos_plan(r, tier, stateful=True)
         n = len(plan["feed"]["dates"])
-        plan["cuts"] = [[r.randint(0, n - 2), r.choice(["scale", "redraw", "nan", "zero", "mixed"]), r.randrange(1 << 30)] for _ in range(2)]
+        plan["cuts"] = [[r.randint(0, n - 2), r.choice(["scale", "redraw", "nan", "zero", "mixed"]), r.randrange(1 << 30)] for _ in range(4)]
         plan["seed"] = r.randrange(1 << 30)
         return plan
 
